@@ -62,6 +62,14 @@ def replay_case(chk: core.Check, case: dict, units) -> None:
             if not exact_unit and q2 % 2 == 0:
                 continue  # metric units do not round-trip exactly: only queries strictly between row values
             rows = [impl.make_row(time=float(i), distance=U(float(v))) for i, v in enumerate(col)]
+            if (sum(col) + q2 + n) % 2:
+                # display history: the caller has looked at every other row in another unit (`<<` re-labels in place, the
+                # magnitude is untouched): the order of the rows is the order of their magnitudes, whatever they display in
+                for i, r_ in enumerate(rows):
+                    if i % 2 == (q2 % 2):
+                        r_.distance << units[(units.index(U) + 1 + i) % len(units)]
+                        r_.look_distance << units[(units.index(U) + 2 + i) % len(units)]
+                chk.stratum("rows_in_mixed_display_units")
             hr = m.HitResult(shot, rows, False)
             q = q2 / 2.0
             entries = {
@@ -114,6 +122,11 @@ def replay_case(chk: core.Check, case: dict, units) -> None:
     elif op == "apex":
         rows = [impl.make_row(time=float(i), distance=m.Unit.Foot(float(i)), height=m.Unit.Foot(float(v)))
                 for i, v in enumerate(col)]
+        if (sum(col) + n) % 2:
+            for i, r_ in enumerate(rows):
+                if i % 2:
+                    r_.height << units[(1 + i) % len(units)]
+            chk.stratum("rows_in_mixed_display_units")
         hr = m.HitResult(shot, rows, False)
         for name, fn in (("helpers.find_index_of_apex_point", lambda: H.find_index_of_apex_point(hr)),
                          ("helpers.find_index_of_apex_in_points", lambda: H.find_index_of_apex_in_points(rows))):
@@ -151,7 +164,7 @@ def run(chk: core.Check, replay=None) -> None:
         chk.traces += 1
     for c in cases[:: max(1, len(cases) // 5)][:5]:
         chk.sample(c)
-    chk.require_strata(["dist", "time", "near", "apex", "empty", "repeats", "sentinel"])
+    chk.require_strata(["dist", "time", "near", "apex", "empty", "repeats", "sentinel", "rows_in_mixed_display_units"])
     chk.rule.append("every non-decreasing sequence (len<=%d over 0..%d) x every (half-)integer query x every entry point, "
                     "generated by TLC from Gen_Lookup; non-trivial = sequence length >= 2; distinct by (op, sequence, "
                     "query, entry point, unit)" % (maxlen, maxval))
